@@ -71,7 +71,7 @@ static int32_t do_sync_op(struct jls_wr_s *wr, const Op &o) {
         case OP_SIG: {
             DefStrings d; def_strings(o, 2, d);
             struct jls_signal_def_s s; memset(&s, 0, sizeof s);
-            s.signal_id = (uint16_t) o.sig; s.source_id = (uint16_t) o.src; s.signal_type = (uint8_t) o.sigtype; s.data_type = dt_code[o.dtype];
+            s.signal_id = (uint16_t) o.sig; s.source_id = (uint16_t) o.src; s.signal_type = (uint8_t) o.sigtype; s.data_type = o.dtx ? o.dtx : dt_code[o.dtype];
             s.sample_rate = o.p[0]; s.samples_per_data = o.p[1]; s.sample_decimate_factor = o.p[2]; s.entries_per_summary = o.p[3];
             s.summary_decimate_factor = o.p[4]; s.annotation_decimate_factor = o.p[5]; s.utc_decimate_factor = o.p[6];
             s.name = d.c[0]; s.units = d.c[1];
@@ -154,7 +154,7 @@ static int32_t do_twr_op(struct jls_twr_s *wr, const Op &o) {
         case OP_SIG: {
             DefStrings d; def_strings(o, 2, d);
             struct jls_signal_def_s s; memset(&s, 0, sizeof s);
-            s.signal_id = (uint16_t) o.sig; s.source_id = (uint16_t) o.src; s.signal_type = (uint8_t) o.sigtype; s.data_type = dt_code[o.dtype];
+            s.signal_id = (uint16_t) o.sig; s.source_id = (uint16_t) o.src; s.signal_type = (uint8_t) o.sigtype; s.data_type = o.dtx ? o.dtx : dt_code[o.dtype];
             s.sample_rate = o.p[0]; s.samples_per_data = o.p[1]; s.sample_decimate_factor = o.p[2]; s.entries_per_summary = o.p[3];
             s.summary_decimate_factor = o.p[4]; s.annotation_decimate_factor = o.p[5]; s.utc_decimate_factor = o.p[6];
             s.name = d.c[0]; s.units = d.c[1];
